@@ -26,7 +26,7 @@ C07_OPS = ["bitwise_and", "bitwise_or", "bitwise_xor", "bitwise_andnot", "bitwis
 C03_OPS = ["eq", "neq", "lt", "le", "gt", "ge", "select", "bool_and", "bool_or", "bool_xor", "bool_not", "bool_lnot", "bool_eq", "bool_neq",
            "bool_andnot", "bool_land", "bool_lor", "bool_any", "bool_all", "bool_none", "bool_count", "bool_mask", "bool_from_mask"] + [o for o in entries.OPS if o.startswith("bool_cast_to_")]
 
-C02_OPS = ["add", "sub", "mul", "div", "sqrt", "neg", "abs", "copysign", "bitofsign", "bitwise_and", "bitwise_or", "bitwise_xor",
+C02_OPS = ["add", "sub", "mul", "div", "sqrt", "neg", "abs", "copysign", "bitofsign", "nextafter", "bitwise_and", "bitwise_or", "bitwise_xor",
            "bitwise_andnot", "bitwise_not", "fma", "fms", "fnma", "fnms", "min", "max", "isnan", "isinf", "isfinite", "is_flint",
            "is_even", "is_odd", "sign", "signnz"]
 C08_OPS = ["ceil", "floor", "trunc", "round", "nearbyint", "rint", "nearbyint_as_int"]
